@@ -106,6 +106,9 @@ func engineEnv(cfg *checkCfg) []string {
 	return env
 }
 
+// runsFrom: first run index (--from; exploration of a slice of the run space, e.g. when hunting)
+var runsFrom int
+
 func runCheck(cfg *checkCfg, tier string, seed uint64, runsOverride int, writeEvidence bool) int {
 	start := time.Now()
 	if tier != "quick" && tier != "thorough" {
@@ -176,7 +179,7 @@ func runCheck(cfg *checkCfg, tier string, seed uint64, runsOverride int, writeEv
 	if runsOverride > 0 {
 		n = runsOverride
 	}
-	agg := runPool(&poolOpts{bin: bin, cfg: cfg, engine: cfg.Engine, seed: seed, tier: tier, from: 0, to: n,
+	agg := runPool(&poolOpts{bin: bin, cfg: cfg, engine: cfg.Engine, seed: seed, tier: tier, from: runsFrom, to: runsFrom + n,
 		replayDir: replayDir, env: env, maxViol: maxViolations()})
 
 	// 3. runs that killed or stalled their worker: reproduce alone, twice, in fresh processes
